@@ -202,6 +202,11 @@ func ownDetail(l gen.Layer, decoded bool) []string {
 	case "*domains.withDomain":
 		return []string{firstLine(l.Domain)}
 	case "*contexttags.withContext":
+		if decoded && len(l.Tags) == 0 {
+			// a layer without any tag is received as an opaque wrapper
+			// (its decoder declines an empty payload)
+			return []string{"(opaque error wrapper)", "contexttags.withContext"}
+		}
 		return []string{"tags: ["}
 	case "*exthttp.withHTTPCode":
 		return []string{fmt.Sprintf("http code: %d", l.HTTP)}
